@@ -72,7 +72,8 @@ let line l =
     let rest = Stdlib.String.sub l (sp1 + 1) (Stdlib.String.length l - sp1 - 1) in
     let c = r_cfg (parse_sexp rest) in
     if not (Clean.clean_cfg c) then "(claims-present)"
-    else if not (Justify.ldefs_unique_cfg c) then "(local-defs-not-unique)" else "(clean)"
+    else if not (Justify.ldefs_unique_cfg c) then "(local-defs-not-unique)"
+    else if not (DegWf.deg_wf c) then "(degree-hypotheses-unmet)" else "(clean)"
   | "constcond" ->
     (* constcond (cfg ...) : the findings of the constant-conditional pass, by position of the if statement *)
     let rest = Stdlib.String.sub l (sp1 + 1) (Stdlib.String.length l - sp1 - 1) in
